@@ -1,6 +1,7 @@
 package main
 
 import (
+	"sync"
 	"errors"
 	"fmt"
 	"io"
@@ -13,15 +14,25 @@ import (
 
 // scriptedStore serves chunk data from a map and fails the k-th GetChunk call for k in fail
 type scriptedStore struct {
+	mu    sync.Mutex
 	data  map[desync.ChunkID][]byte
 	fail  map[int]bool
 	calls int
+	down  bool // every fetch fails while set
+}
+
+func (s *scriptedStore) ncalls() int {
+	s.mu.Lock()
+	defer s.mu.Unlock()
+	return s.calls
 }
 
 func (s *scriptedStore) GetChunk(id desync.ChunkID) (*desync.Chunk, error) {
+	s.mu.Lock()
+	defer s.mu.Unlock()
 	k := s.calls
 	s.calls++
-	if s.fail[k] {
+	if s.fail[k] || s.down {
 		return nil, errors.New("scripted store failure")
 	}
 	b, ok := s.data[id]
